@@ -322,6 +322,35 @@ bail:
   free(rgb); tj3Free(jpg); tj3Free(dst);
 }
 
+/* xarith <ri> <hex>: read the coefficients of a stream and write them again with the arithmetic
+ * coder (jpeg_write_coefficients, sequential) and the given restart interval; print "<hex>\t<dec line>" */
+static void do_xarith(char *p)
+{
+  struct jpeg_decompress_struct d; struct jpeg_compress_struct c; struct jpeg_error_mgr e1, e2;
+  jvirt_barray_ptr *coefs; unsigned char *buf, *out = NULL; unsigned long outsz = 0; size_t len = 0, i; long ri;
+  ri = strtol(p, &p, 10); while (*p == ' ') p++;
+  while (p[len] && p[len] != '\n' && p[len] != ' ') len++;
+  buf = malloc(len / 2 + 1);
+  for (i = 0; i + 1 < len; i += 2) buf[i / 2] = (unsigned char)(hexv(p[i]) * 16 + hexv(p[i + 1]));
+  d.err = jpeg_std_error(&e1); e1.error_exit = my_exit; e1.emit_message = my_emit;
+  c.err = jpeg_std_error(&e2); e2.error_exit = my_exit; e2.emit_message = my_emit;
+  jpeg_create_decompress(&d); jpeg_create_compress(&c);
+  if (setjmp(jb)) { printf("encfail %d\n", last_err); jpeg_destroy_decompress(&d); jpeg_destroy_compress(&c); free(buf); free(out); return; }
+  jpeg_mem_src(&d, buf, (unsigned long)(len / 2));
+  jpeg_read_header(&d, TRUE);
+  coefs = jpeg_read_coefficients(&d);
+  jpeg_mem_dest(&c, &out, &outsz);
+  jpeg_copy_critical_parameters(&d, &c);
+  c.arith_code = TRUE; c.restart_interval = (unsigned int)ri;
+  jpeg_write_coefficients(&c, coefs);
+  jpeg_finish_compress(&c);
+  jpeg_finish_decompress(&d);
+  jpeg_destroy_compress(&c); jpeg_destroy_decompress(&d);
+  put_hex(out, outsz); putchar('\t');
+  dec_stream(out, outsz);
+  free(out); free(buf);
+}
+
 int main(void)
 {
   char *line = NULL; size_t cap = 0; ssize_t n;
@@ -343,7 +372,8 @@ int main(void)
       for (i = 0; i + 1 < len; i += 2) buf[i / 2] = (unsigned char)(hexv(p[i]) * 16 + hexv(p[i + 1]));
       dec_stream_c(buf, len / 2, chunk ? chunk : 1);
       free(buf);
-    } else if (!strncmp(line, "enc ", 4)) do_enc(line + 4);
+    } else if (!strncmp(line, "xarith ", 7)) do_xarith(line + 7);
+    else if (!strncmp(line, "enc ", 4)) do_enc(line + 4);
     else if (!strncmp(line, "xform ", 6)) do_xform(line + 6);
     else printf("?\n");
   }
